@@ -13,6 +13,7 @@ import Driver.Mux
 import Driver.VP8Recon
 import Driver.Writer
 import Driver.VP8LEntropy
+import Driver.CodecFront
 /-
   webpdrv — line protocol: one operation per input line (`op arg arg …`), one canonical
   output line per operation.  Unknown or malformed operations answer `bad-op` (never a default).
@@ -32,7 +33,8 @@ def dispatch (line : String) : String :=
            <|> Driver.Kernels.handle op args <|> Driver.Mux.handle op args
            <|> Driver.VP8Recon.handle op args
            <|> Driver.Writer.handle op args
-           <|> Driver.VP8LEntropy.handle op args) with
+           <|> Driver.VP8LEntropy.handle op args
+           <|> Driver.CodecFront.handle op args) with
     | some r => r
     | none => "bad-op"
 
